@@ -72,6 +72,9 @@ func c09FamRunOne(c *core.Ctx, s c09FamScenario, deadline time.Time, replay []st
 		c.Incomplete(fmt.Sprintf("scenario %s: %d replay divergences (harness nondeterminism; those branches are not covered)", s.name, st.Nondeterminism))
 	}
 	for sig, v := range st.Violations {
+		if !strings.HasPrefix(sig, s.family+":") {
+			sig = s.family + ":" + sig // a family's findings are classes of their own (a known finding of one family does not hide another's)
+		}
 		c.Violate(sig, fmt.Sprintf("scenario %s: %s\n  schedule: %s\n  trace:\n    %s", s.name, v.Msg, strings.Join(v.Schedule, " "), strings.Join(v.Trace, "\n    ")),
 			c09Payload{Family: s.family, Scenario: s.name, Schedule: v.Schedule, Trace: v.Trace})
 	}
